@@ -33,7 +33,11 @@ type built struct {
 	tied  int // how often the model's registries / acceptance were compared for this build
 	// defSexp caches the extraction of def for the model
 	defSexp *hx.Sexp
+	// serial identifies this build (never reused, unlike its address)
+	serial int
 }
+
+var buildSerial int
 
 func customScalar(name, desc string) *schema.ScalarType {
 	return &schema.ScalarType{
@@ -232,7 +236,8 @@ func resetBuiltinDirectives() {
 
 // build constructs the real definition. It panics only on harness bugs.
 func build(d *SDef) *built {
-	b := &builder{d: d, out: &built{sdef: d, types: map[string]schema.NamedType{}, dirs: map[string]*schema.DirectiveDefinition{}}, feats: map[string]schema.FeatureSet{}}
+	buildSerial++
+	b := &builder{d: d, out: &built{sdef: d, serial: buildSerial, types: map[string]schema.NamedType{}, dirs: map[string]*schema.DirectiveDefinition{}}, feats: map[string]schema.FeatureSet{}}
 	// shells
 	for i := range d.Types {
 		t := &d.Types[i]
